@@ -75,7 +75,7 @@ def run(ctx):
                        "case = (option set, 16-bit input sequence, splits into calls); distinct by hash; non-trivial = the output used at least two different offsets (a wrap was removed or a reset happened)",
                        ["the exhaustive model uses a 6-7 bit word (all inputs, all sequence lengths, since the unwrapper's state is finite); the 16-bit code is covered by the traces",
                         "'between resets': a step is exempt from the range predicate only when a reset was due (offset back at home after at least resetAfter samples away)",
-                        "bias measured from the constructed object"])
+                        "the bias is computed in the trace spec from the constructor argument (configured bias), Go int16 arithmetic; generators keep |bias| below half a quantum as every real configuration does"])
 
 
 def replay(ctx, path):
